@@ -1122,9 +1122,12 @@ class SP(Robot):
         This function can be used to mirror all the joint locations and "fix" the resultant problem
         Meant to be called internally only.
         """
+        #The joint planes lie where the plate-fixed joint tables put them (makeSP puts them at half the thickness)
+        bottom_offset = self._bottom_joints_local[2, 0]
+        top_offset = -self._top_joints_local[2, 0]
         for num in range(6):
             newTJ = fsr.mirror(self.getBottomT() @
-                tm([0, 0, self.bottom_plate_thickness, 0, 0, 0]),
+                tm([0, 0, bottom_offset, 0, 0, 0]),
                 tm([self._top_joints_space[0, num],
                 self._top_joints_space[1, num],
                 self._top_joints_space[2, num], 0, 0, 0]))
@@ -1133,8 +1136,8 @@ class SP(Robot):
             self._top_joints_space[2, num] = newTJ[2]
             self.lengths[num] = fsr.distance(
                 self._top_joints_space[:, num], self._bottom_joints_space[:, num])
-        top_true = fsr.mirror(self.getBottomT() @ tm([0, 0, self.bottom_plate_thickness, 0, 0, 0]),
-            self.getTopT() @ tm([0, 0, -self.top_plate_thickness, 0, 0, 0]))
+        top_true = fsr.mirror(self.getBottomT() @ tm([0, 0, bottom_offset, 0, 0, 0]),
+            self.getTopT() @ tm([0, 0, -top_offset, 0, 0, 0]))
         #The top joints lie in one plane of the top plate, so their mirror image is reached by a proper rotation:
         #reflect the old orientation through the bottom plane and flip the plate's own z axis.
         normal = self.getBottomT().gTM()[0:3, 2]
@@ -1142,7 +1145,7 @@ class SP(Robot):
         mirrored[0:3, 0:3] = ((np.eye(3) - 2 * np.outer(normal, normal)) @
             self.getTopT().gTM()[0:3, 0:3] @ np.diag([1.0, 1.0, -1.0]))
         mirrored[0:3, 3] = top_true[0:3].flatten()
-        self._end_effector_pos_global = tm(mirrored) @ tm([0, 0, self.top_plate_thickness, 0, 0, 0])
+        self._end_effector_pos_global = tm(mirrored) @ tm([0, 0, top_offset, 0, 0, 0])
 
     def _rescaleLegLengths(self, current_leg_min : float, current_leg_max : float) -> None:
         """
